@@ -69,6 +69,9 @@ func (k *c11kv) Close() error { return nil }
 // every look-up of the meta index counts as activity of the store (a packing goroutine reads one row per line)
 var c11kvActivity atomic.Int64
 
+// how often a held-back index row was asked for by a packing goroutine before it was written
+var c11gateHits atomic.Int64
+
 func (k *c11kv) Get(key string) (string, error) {
 	c11kvActivity.Add(1)
 	v, err := k.KeyValue.Get(key)
@@ -95,6 +98,7 @@ func (k *c11kv) Set(key, value string) error {
 	if armed {
 		select {
 		case <-k.got:
+			c11gateHits.Add(1)
 		case <-time.After(40 * time.Millisecond):
 		}
 		k.mu.Lock()
@@ -658,6 +662,11 @@ func runC11(c *ctx) {
 	oldOut := log.Writer()
 	defer log.SetOutput(oldOut)
 
+	defer func() {
+		for i := int64(0); i < c11gateHits.Load(); i++ {
+			c.count("background", "held-back index row asked for by the packer")
+		}
+	}()
 	if ok, pan := withTimeout(300*time.Second, func() { c11FullBoundary(c, dir) }); !ok || pan != nil {
 		c.violation(-1, "c11-hang", fmt.Sprintf("the full-meta-blob boundary scenario: finished=%v panic=%v", ok, pan), nil)
 	}
@@ -698,16 +707,14 @@ func c11Scenario(c *ctx, dir string, si int) {
 			ids = append(ids, 1+c.rng.Intn(n)) // possibly never received
 			return ids
 		}
+		armedCount := 0
 		for i := 1; i <= n; i++ {
 			id := i
 			if c.rng.Intn(8) == 0 && len(received) > 0 {
 				id = received[c.rng.Intn(len(received))] // duplicate
 			}
-			if c.rng.Intn(40) == 0 {
-				e.meta.mu.Lock()
-				e.meta.failRm = 1
-				e.meta.mu.Unlock()
-			}
+			// (the removal of the small meta blobs fails for a quarter of the compactions: decided below, at the upload that
+			// is likely to start one - decided per upload it would hit nearly every compaction)
 			// a transient failure of one of the wrapped stores: the receive fails, the client retries
 			if !isRecv[id] && c.rng.Intn(25) == 0 {
 				atMeta := c.rng.Intn(2) == 0
@@ -735,19 +742,30 @@ func c11Scenario(c *ctx, dir string, si int) {
 			}
 			e.meta.mu.Lock()
 			nmeta := len(e.meta.order)
+			if nmeta >= 100 {
+				e.meta.failRm = 0
+				if c.rng.Intn(4) == 0 {
+					e.meta.failRm = 1
+				}
+			}
 			e.meta.mu.Unlock()
-			if !isRecv[id] && e.kv != nil && nmeta >= 100 && c.rng.Intn(2) == 0 { // this upload is likely to start the packer
+			if !isRecv[id] && e.kv != nil && nmeta >= 100 && (armedCount < 8 || c.rng.Intn(2) == 0) { // this upload is likely to start the packer
+				armedCount++
 				e.kv.mu.Lock()
 				e.kv.armed = true // this upload's index row is written only after the packer (if it starts) has asked for it
 				e.kv.mu.Unlock()
 				c.count("steps", "receive with its index row held back")
 			}
+			hitsBefore := c11gateHits.Load()
 			if err := e.receive(id); err != nil {
 				c.violation(-1, "c11-receive-failed", fmt.Sprintf("receive #%d: %v", id, err), nil)
 				break
 			}
 			e.ops = append(e.ops, fmt.Sprintf("HReceive %d", id))
 			e.human = append(e.human, fmt.Sprintf("receive #%d", id))
+			if c11gateHits.Load() > hitsBefore {
+				e.human = append(e.human, fmt.Sprintf("(the packing goroutine asked for the index row of #%d before it was written)", id))
+			}
 			skip := 1
 			if isRecv[id] {
 				skip = 0
@@ -772,14 +790,16 @@ func c11Scenario(c *ctx, dir string, si int) {
 				e.drainEvents(0)
 				e.checkpoint("after receives", sample(3))
 			}
-			if c.rng.Intn(60*scale) == 0 || i == n {
+			if c.rng.Intn(60*scale) == 0 || i == n || i == n/3 {
 				// restart, keeping the meta index or with a fresh one (always fresh at the end)
 				e.settle()
 				e.drainEvents(0)
 				if mv, _, _, _ := e.views(); len(mv) > 100 {
 					e.loose = true // more than SmallMetaCountLimit meta blobs: the start-up will compact, in an order we cannot see
 				}
-				warm := i != n && e.kv != nil && c.rng.Intn(2) == 0
+				// (every scenario has one restart that keeps the index a third of the way in: enough uploads follow for a
+				// compaction, and the final restart is over an empty index)
+				warm := i != n && e.kv != nil && (c.rng.Intn(2) == 0 || i == n/3)
 				if warm {
 					c11kvMu.Lock()
 					c11kvKeep[fmt.Sprintf("%s-%d", e.tag, e.opens)] = e.kv
